@@ -118,10 +118,13 @@ class Check:
         self.rng = random.Random(self.seed)
         self.t0 = time.time()
         self.dir = os.path.join(VERIF, "props", pid)
-        self.work = os.path.join(CACHE, "work", pid)
-        if os.path.exists(self.work) and not a.keep:
+        # one scratch directory per run (two runs of the same check may overlap); removed at the end unless --keep
+        self.keep = a.keep
+        self.work = os.path.join(CACHE, "work", pid if a.keep else "%s.%d" % (pid, os.getpid()))
+        if os.path.exists(self.work):
             shutil.rmtree(self.work, ignore_errors=True)
         os.makedirs(self.work, exist_ok=True)
+        self._sweep_stale_work()
         self.violations = []     # (key, what, replay_file, found_input)
         self.known_hits = []
         self.coverage = {"samples": [], "trusted_base": [], "obligations": 0, "discharged": 0,
@@ -132,6 +135,17 @@ class Check:
         kf = os.path.join(self.dir, "known_findings.json")
         self.known = json.load(open(kf)) if os.path.exists(kf) else []
         self._distinct = set()
+
+    def _sweep_stale_work(self):
+        """remove scratch directories of runs whose process is gone"""
+        wd = os.path.join(CACHE, "work")
+        try:
+            for d in os.listdir(wd):
+                m = re.match(r"^(C\d+)\.(\d+)$", d)
+                if m and not os.path.exists("/proc/%s" % m.group(2)):
+                    shutil.rmtree(os.path.join(wd, d), ignore_errors=True)
+        except OSError:
+            pass
 
     def quick(self):
         return self.tier == "quick"
@@ -161,11 +175,16 @@ class Check:
         os.makedirs(odir, exist_ok=True)
         obj = os.path.join(odir, h + ".o")
         if not os.path.exists(obj):
-            tmp = obj + ".%d.tmp" % os.getpid()
+            import threading, uuid
+            tmp = obj + ".%d.%d.%s.tmp" % (os.getpid(), threading.get_ident(), uuid.uuid4().hex[:8])
             rc, out, err = sh([cxx] + flags + ["-c", src, "-o", tmp], timeout=1800)
             if rc != 0:
                 raise BuildError("compilation of %s failed:\n%s" % (src, err[-6000:]))
-            os.replace(tmp, obj)
+            try:
+                os.replace(tmp, obj)
+            except FileNotFoundError:
+                if not os.path.exists(obj):
+                    raise
         return obj
 
     def cxx(self, name, sources, repo_sources=(), flags=(), libs=(), opt="-O1", cxx="g++", link_repo_libs=False):
@@ -192,7 +211,21 @@ class Check:
             raise BuildError("link of %s failed:\n%s" % (name, err[-4000:]))
         return exe
 
+    _private_shm = None
+
+    @classmethod
+    def private_shm_ok(cls):
+        """can we give a command its own /dev/shm (private mount namespace)?  Used for every run of `mfront`, whose
+        inter-process lock is the system-wide named semaphore /dev/shm/sem.mfront-<uid>: isolated runs cannot be
+        blocked by (or block) another check, a killed run cannot leave the shared semaphore at 0."""
+        if cls._private_shm is None:
+            rc, out, err = sh(["unshare", "-m", "sh", "-c", "mount -t tmpfs tmpfs /dev/shm && echo ok"], timeout=30)
+            cls._private_shm = (rc == 0 and "ok" in out)
+        return cls._private_shm
+
     def run(self, cmd, timeout=600, input=None, cwd=None, env=None):
+        if cmd and os.path.basename(str(cmd[0])) == "mfront" and Check.private_shm_ok():
+            cmd = ["unshare", "-m", "sh", "-c", 'mount -t tmpfs tmpfs /dev/shm && exec "$@"', "sh"] + list(cmd)
         e = dict(os.environ)
         e["LD_LIBRARY_PATH"] = ":".join(repo_lib_dirs()) + ":" + e.get("LD_LIBRARY_PATH", "")
         if env:
@@ -447,6 +480,8 @@ class Check:
             k = self.replay.get("key")
             hit = any(v[0] == k for v in self.violations) or k in self.known_hits
             print("REPLAY key=%s %s" % (k, "reproduced" if hit else "NOT reproduced on the current tree"))
+        if not self.keep and not self.violations:
+            shutil.rmtree(self.work, ignore_errors=True)
         if not self.violations:
             print("OK property=%s tier=%s obligations=%d/%d evaluations=%d wall=%.1fs" % (
                 self.pid, self.tier, cov["discharged"], cov["obligations"], cov["evaluations"], time.time() - self.t0))
